@@ -100,7 +100,7 @@ class C10(Prop):
         return bool(case['zeros'])
 
     def finding_key(self, case, clause, detail):
-        if clause == 'mass-sums-to-total' and (detail or {}).get('max_abs_potential', 0) >= 1e7:
+        if clause == 'mass-sums-to-total' and max((detail or {}).get('max_abs_potential', 0), (detail or {}).get('max_abs_potential_incl_warm_start_history', 0)) >= 1e7:
             # float cancellation regime of belief propagation (relative normalisation error ~ eps * max|potential|, see C08): keyed separately, still a violation
             return 'bounded:%s:potentials>=1e7' % clause
         return 'bounded:%s' % clause
@@ -141,8 +141,11 @@ class C10(Prop):
                 v = np.asarray(f.values, dtype=float)
                 v = np.abs(v[np.isfinite(v)])
                 pmax = max(pmax, float(v.max()) if v.size else 0.0)
+            # with warm start the parameters of the previous call are the starting point of this one: the float-cancellation regime
+            # of belief propagation (known finding) is entered through them even if this call's refit parameters are moderate
+            pmax_hist = max(pmax, locals().get('pmax_hist', 0.0)) if case.get('warm') else pmax
             ctx = dict(call=k, engine=step['engine'], model_cliques=[list(c) for c in model.cliques], has_marginals=hasattr(model, 'marginals'),
-                       max_abs_potential=pmax)
+                       max_abs_potential=pmax, max_abs_potential_incl_warm_start_history=pmax_hist)
             for q in queries:
                 a, lab = MC.factor_array(model.project(q), q)
                 inq = any(set(q) <= set(cl) for cl in model.cliques)
